@@ -25,6 +25,7 @@
 # ARISING IN ANY WAY OUT OF THE USE OF THIS SOFTWARE, EVEN IF ADVISED OF THE
 # POSSIBILITY OF SUCH DAMAGE.
 
+import calendar
 import re
 import time
 
@@ -154,7 +155,6 @@ def _parse_date_iso8601(date_string):
             tm[4] -= int(params.get("tzmin", 0))
         else:
             return None
-    # Python's time.mktime() is a wrapper around the ANSI C mktime(3c)
-    # which is guaranteed to normalize d/m/y/h/m/s.
-    # Many implementations have bugs, but we'll pretend they don't.
-    return time.localtime(time.mktime(tuple(tm)))
+    # calendar.timegm() normalizes d/h/m/s overflow like the ANSI C mktime(3c)
+    # would, but treats the fields as UTC instead of the process's local time.
+    return time.gmtime(calendar.timegm(tuple(tm)))
